@@ -1,10 +1,12 @@
 /-
 C07 — operations never touch third-party balances and conserve token totals.
 `Touched w op z` (Halo/Inv.lean): the actor, the addressed contract, the designated receiver, for a route
-the pair contracts and the router, and the LP token address of the addressed pair.
+the pair contracts and the router, the LP token address of the addressed pair, and — for the cw20 messages by which a
+spender moves an owner's tokens with its allowance (`TransferFrom`, `SendFrom`, `BurnFrom`) — that owner.
 -/
 import Halo.Proofs.C07
 import Halo.Proofs.Flows
+import Halo.Proofs.Allow
 
 namespace Halo.Props.C07
 open Halo
@@ -20,19 +22,32 @@ theorem failed_step_frame {name : Asset → String} {w : World} {op : Op} {e : E
     (h : exec name w op = .error e) : step name w op = w := by
   unfold step; rw [h]
 
-/-- "the designated receiver's balances can only increase" — in fact every account other than the actor, the pair
-contracts and the router (so also every receiver that is not itself one of those) loses nothing in any asset -/
+/-- "the designated receiver's balances can only increase" — in fact every account other than the actor, the owner
+whose allowance a `TransferFrom` / `SendFrom` / `BurnFrom` spends (`ownersOf`, empty for every other operation: it
+consented by granting the allowance), the pair contracts and the router (so also every receiver that is not itself
+one of those) loses nothing in any asset -/
 theorem receiver_never_loses {name : Asset → String} {w w' : World} {op : Op} {out : Out}
     (hf : FreshOK w op) (h : exec name w op = .ok (w', out)) (a : Asset) (z : Nat)
-    (hz : z ≠ actorOf op) (hp : w.pair z = none) (hr : z ≠ w.router) : bal w a z ≤ bal w' a z :=
-  Halo.Flows.never_lose hf h a z hz hp hr
+    (hz : z ≠ actorOf op) (ho : z ∉ ownersOf op) (hp : w.pair z = none) (hr : z ≠ w.router) :
+    bal w a z ≤ bal w' a z :=
+  Halo.Flows.never_lose hf h a z hz ho hp hr
 
-/-- allowances of bystanders are never consumed: only the owner of an allowance (by granting) and the
-spender it was granted to — here always the pair pulling the caller's own deposit — change it -/
+/-- allowances of bystanders are never consumed: only the owner of an allowance (by granting or decreasing it) and the
+spender it was granted to — the pair pulling the caller's own deposit, or a third party using `TransferFrom` /
+`SendFrom` / `BurnFrom`, of which the owner is then a `Touched` account — change it -/
 theorem allowance_frame {name : Asset → String} {w w' : World} {op : Op} {out : Out}
     (h : exec name w op = .ok (w', out)) (hf : FreshOK w op) (t o s : Nat) (T T' : Token)
     (hT : w.tok t = some T) (hT' : w'.tok t = some T') (ho : ¬ Touched w op o) : T'.allow o s = T.allow o s :=
   Halo.C07.allowance_frame h hf t o s T T' hT hT' ho
+
+/-- allowance entries are created only by their owner's `IncreaseAllowance`: no operation creates an entry owned by
+anybody but its actor (`TransferFrom` / `SendFrom` / `BurnFrom` lower an existing entry, `DecreaseAllowance` lowers
+or removes one) — so an account that never submits an operation (a pair contract, an LP token's own address) never
+has one, and no third party can move its tokens (`PairInv.noAllow`) -/
+theorem no_new_allowance {name : Asset → String} {w w' : World} {op : Op} {out : Out}
+    (h : exec name w op = .ok (w', out)) (t o s : Nat) (ho : o ≠ actorOf op)
+    (hn : Halo.C07.allowOf w t o s = none) : Halo.C07.allowOf w' t o s = none :=
+  Halo.Allow.exec_noNewAllow h t o s ho hn
 
 /-- native coins are conserved: over any duplicate-free list of accounts containing everything the
 operation may touch, the sum of balances is unchanged -/
@@ -48,10 +63,11 @@ theorem conserve_token {name : Asset → String} {w w' : World} {op : Op} {out :
     sumBal w' (.token t) L + supply w t = sumBal w (.token t) L + supply w' t :=
   Halo.C07.conserve_token h hf t L hn hL
 
-/-- the total supply of a token that is not an LP token changes only when a holder burns its own tokens -/
+/-- the total supply of a token that is not an LP token changes only when a holder's tokens are burnt: by the holder
+itself (`Burn`) or by a spender with the holder's allowance (`BurnFrom`) -/
 theorem supply_non_lp {name : Asset → String} {w w' : World} {op : Op} {out : Out}
     (h : exec name w op = .ok (w', out)) (hf : FreshOK w op) (t : Nat) (hlp : ¬ IsLp w t) :
-    supply w' t = supply w t ∨ ∃ s amt, op = .tokBurn t s amt :=
+    supply w' t = supply w t ∨ (∃ s amt, op = .tokBurn t s amt) ∨ ∃ sp o amt, op = .tokBurnFrom t sp o amt :=
   Halo.C07.supply_non_lp h hf t hlp
 
 /-- LP supply changes only through a successful provision (by the minted amount, plus the reserved
